@@ -400,6 +400,15 @@ def check_case(case, stats=None):
                     out.append(("C18:print-quantity:%s:value" % site,
                                 "%r printed as %r parsed back as %r" % (float(val), text, p.value)))
                 _same_units("print-quantity:" + site, text, p.units, sys3, dim, out)
+        elif sub == "alphabet":
+            text = case["text"]
+            if text == text.strip(G.BLANKS):          # blanks around the whole text are not part of the question
+                v = G.classify_units(text)
+                sites = UNIT_SITES + QUANT_SITES
+                if v.valid:
+                    _expect_valid(sites, lambda s: _qtext(s, text), v, _qval, out, n)
+                elif v.invalid:
+                    _expect_raise(sites, lambda s: _qtext(s, text), "outside-grammar-accepted:" + case["family"], out, n)
         elif sub == "history":
             _history(case, out, n)
         elif sub == "history-print":
@@ -624,6 +633,23 @@ def malformed_family(tier):
 
 # ---- sub-spaces -----------------------------------------------------------------------------------
 
+EXP_ALPHABET = ["-", "+", ".", " ", "0", "1", "2", "3"]
+SEP_ALPHABET = [".", "/", " ", "-", "+", "2"]
+# target symbol and two companions of other kinds (no base-unit conflict with the target)
+EXP_TARGETS = [("m", ("s", "mol")), ("uM", ("s", "L")), ("µm", ("h", "molecule")), ("L", ("min", "nmol")),
+               ("s", ("km", "mol")), ("mol", ("dmm", "us"))]
+
+
+def _strings(alphabet, maxlen):
+    """All strings over the alphabet with length 0..maxlen, shortest first, alphabet order."""
+    out = [""]
+    layer = [""]
+    for _ in range(maxlen):
+        layer = [x + a for x in layer for a in alphabet]
+        out += layer
+    return out
+
+
 def _mixed(idx, radices):
     """Digits of idx in the mixed radix system (most significant first)."""
     ds = []
@@ -701,6 +727,31 @@ def _spaces(tier):
     sp.append(("malformed: family derived from the %d-text valid cover (%d candidates the reference finds legal or "
                "unspecified were dropped)" % (len(cover), dropped), len(fam),
                lambda i: {"sub": "malformed", "cls": fam[i][0], "form": fam[i][1], "text": fam[i][2], "origin": fam[i][3]}))
+    # every string over a small alphabet where an exponent / a separator may stand
+    maxlen = 4 if tier == "thorough" else 3
+    xs = _strings(EXP_ALPHABET, maxlen)
+    targets = EXP_TARGETS if tier == "thorough" else EXP_TARGETS[:2]
+    slots = []
+    for sym, (o1, o2) in targets:
+        slots.append((sym, ""))
+        for s1 in SEPS:
+            slots.append((sym, s1 + o1))
+            slots.append((o1 + s1 + sym, ""))
+            for s2 in SEPS:
+                slots.append((sym, s1 + o1 + s2 + o2))
+                slots.append((o1 + s1 + sym, s2 + o2))
+                slots.append((o1 + s1 + o2 + s2 + sym, ""))
+    sp.append(("exponent-alphabet: ALL strings of length 0..%d over %s appended to a symbol (%s) in every factor position "
+               "of 1-, 2-, 3-factor texts x separators = %d slots x %d strings; the reference decides valid / malformed"
+               % (maxlen, EXP_ALPHABET, [s for s, o in targets], len(slots), len(xs)), len(slots) * len(xs),
+               lambda i: {"sub": "alphabet", "family": "exponent-alphabet",
+                          "text": slots[i // len(xs)][0] + xs[i % len(xs)] + slots[i // len(xs)][1]}))
+    ys = _strings(SEP_ALPHABET, maxlen)
+    sslots = [("m", "s"), ("uM2", "L"), ("mol/m", "s"), ("m", "s.mol"), ("mol-1.m", "s2/L")]
+    sp.append(("separator-alphabet: ALL strings of length 0..%d over %s between two factors, %d contexts x %d strings"
+               % (maxlen, SEP_ALPHABET, len(sslots), len(ys)), len(sslots) * len(ys),
+               lambda i: {"sub": "alphabet", "family": "separator-alphabet",
+                          "text": sslots[i // len(ys)][0] + ys[i % len(ys)] + sslots[i // len(ys)][1]}))
     # histories
     hc = history_cover()
     nvar = len(HISTORY_VARIANTS)
@@ -790,6 +841,10 @@ def _work(job):
             acc.count("malformed_" + case["cls"].split(":")[0].replace("-accepted", ""))
         elif sub == "history":
             acc.count("history_cases_first_site_" + case["s1"])
+        elif sub == "alphabet":
+            tx = case["text"]
+            acc.count(case["family"] + "_texts_" + ("outer_blank_not_judged" if tx != tx.strip(G.BLANKS)
+                                                   else G.classify_units(tx).status))
         for key, what in res:
             acc.violation(key, what, case)
         if i in (0, size // 2):
@@ -822,7 +877,9 @@ def run(ctx):
              "a bare default base symbol, a print case unless it is dimensionless; every malformed text counted was "
              "first confirmed by the reference recogniser to be outside the documented grammar; history cases: "
              "parse, modify the returned object in place through the public setters, parse again (all ordered pairs of "
-             "the five entry points), non-trivial when the text has a non-zero dimension")
+             "the five entry points), non-trivial when the text has a non-zero dimension; alphabet sub-spaces: every string over the stated alphabet up to the stated "
+             "length in every slot, judged by the reference (texts with a blank at either end of the whole text and "
+             "zero / zero-padded exponents are enumerated but not judged, and are counted)")
     ctx.assume("the documented grammar and symbol table as coded in mc/ref/grammar.py (self-tested against the "
                "OK / wrong examples and the table of documentation/using_quantities_with_units.rst); texts the "
                "documentation leaves open (zero exponents, nan/inf, underscores, non-ASCII digits, outer blanks) are "
